@@ -10,13 +10,14 @@ def trace_streams(tier, soft=True, classes=("conflict", "small", "dense", "greed
     out = []
     if "conflict" in classes:
         out += [("conflict", f, "sync", "debug", 1200 * k), ("conflict", f, "sync", "release", 500 * k),
-                ("conflict", f, "yield", "debug", 300 * k)]
+                ("conflict", f, "yield", "debug", 300 * k), ("conflict", f, "gated:lifo", "debug", 200 * k),
+                ("conflict", f, "gated:random", "debug", 200 * k)]
     if "small" in classes:
         out += [("small", f, "sync", "debug", 600 * k)]
     if "dense" in classes:
         out += [("dense", f, "sync", "debug", 400 * k)]
     if "greedy" in classes:
-        out += [("greedy", 25, "sync", "debug", 300 * k)]
+        out += [("greedy", 25, "sync", "debug", 300 * k), ("greedy", 25, "gated:lifo", "debug", 150 * k)]
     return out
 
 
